@@ -23,7 +23,7 @@ LEAN_TARGETS = ['CfVerif.Props.C09']
 PROPS_MODULES = ['CfVerif.Props.C09']
 DRIVER = 'Driver/C09.lean'
 REQUIRED_THEOREMS = ['CfVerif.C09.matcher_conditions', 'CfVerif.C09.matcher_groups', 'CfVerif.C09.matcher_partition', 'CfVerif.C09.group_contents',
-                     'CfVerif.C09.linking_outcome', 'CfVerif.C09.linking_iff', 'CfVerif.C09.unlinked_rejected', 'CfVerif.C09.estimate_outcome', 'CfVerif.C09.estimate_exact_on_consistent_data',
+                     'CfVerif.C09.linking_outcome', 'CfVerif.C09.linking_iff', 'CfVerif.C09.unlinked_rejected', 'CfVerif.C09.estimate_outcome', 'CfVerif.C09.estimate_exact_on_consistent_data', 'CfVerif.C09.average_sign_invariant',
                      'CfVerif.C09.layout_length', 'CfVerif.C09.bsmap_sorted', 'CfVerif.C09.sparsity_columns', 'CfVerif.C09.sparsity_rows',
                      'CfVerif.C09.residual_row_reads', 'CfVerif.C09.sparsity_covers_dependencies', 'CfVerif.C09.condense_layout', 'CfVerif.C09.initial_guess_layout',
                      'CfVerif.C09.negated_rotvec_is_transpose', 'CfVerif.C09.zero_residual_at_truth',
@@ -36,7 +36,7 @@ TRUSTED = ['harness/corr/c09.py extractor + correspondence (symbolic subclassing
            'float time stamps: ts + max_time_diff modelled in exact arithmetic',
            'T3 is over an arbitrary field with abstract norm/cos/sin/atan2/tan satisfying TrigLaws; binary64 rounding is not modelled']
 ASSUMPTIONS = ['PARTIAL: convergence/accuracy of the numerics (the 1 mm / 1 mrad claim) is TESTED on generated rooms, not proved',
-               'known finding D92 (mirror vote pollution) makes ~2-5% of realistic rooms miss the tolerance; D91 (eig->eigh) must be fixed',
+               'known findings: D92 (mirror vote pollution, ~2-5% of rooms miss the tolerance), D93 (IPPE NaN when a deck axis is perpendicular to the line of sight, ~2-3% of square rooms; fix proposed); D91 fixed in /repo',
                'for an empty sample list only the API-level ValueError of solve() is compared']
 RULE = ('cases = measurement streams (all streams of <=4/5 measurements over gaps {0,d,d+1} x 2 ids x min_bs, random bursty streams), '
         'co-visibility hypergraphs (chains, stars, islands, dense, degenerate; real rooms behind the real IPPE stage), solver set-ups '
@@ -209,6 +209,14 @@ def extract(ctx):
     g.strings('cfPosesAssigns', _assigns(cfp))
     g.strings('cfPosesFors', _fors(cfp))
     g.strings('cfPosesCalls', _calls(cfp, '.append'))
+    avg = X.find(et, 'LighthouseInitialEstimator._avarage_poses')
+    g.strings('avgAssigns', _assigns(avg))
+    g.strings('avgReturns', _returns(avg))
+    eig_calls = [n for n in _stmts(avg, ast.Call) if ast.unparse(n.func).startswith('np.linalg.eig')]
+    X.expect(len(eig_calls) == 1 and len(eig_calls[0].args) == 1 and not eig_calls[0].keywords,
+             '_avarage_poses: expected exactly one np.linalg.eig*(<matrix>) call (the quaternion average is no longer taken by the eigenvector route)')
+    g.string('avgEigFunc', ast.unparse(eig_calls[0].func))
+    g.string('avgEigArg', ast.unparse(eig_calls[0].args[0]))
     a2p = X.find(et, 'LighthouseInitialEstimator._angles_to_poses')
     g.strings('anglesToPosesAssigns', [s for s in _assigns(a2p) if s.startswith(('ids =', 'first =', 'poses[', 'pair_ids =', 'is_sample_valid'))])
     g.strings('anglesToPosesFors', _fors(a2p))
@@ -688,6 +696,95 @@ def _close(model_reply, real_vals, tol=1e-9):
     return len(mv) == len(real_vals) and all(abs(a - b) <= tol * max(1.0, abs(a), abs(b)) for a, b in zip(mv, real_vals))
 
 
+class QStub:
+    """a pose handed to _avarage_poses with an explicit quaternion (sign chosen by the test)"""
+
+    def __init__(self, quat, t):
+        import numpy as np
+        self.rot_quat = np.array(quat, dtype=float)
+        self.translation = np.array(t, dtype=float)
+
+
+def real_gram(rows):
+    """the matrix the REAL _avarage_poses hands to the eigen-solver for poses with the given (integer) quaternions"""
+    from unittest import mock
+    np, sm, ie, gs, lt, ippe_cf, bv = _mods()
+    rec = []
+
+    def fake_eigh(m, *a, **k):
+        rec.append(np.array(m))
+        return np.arange(4, dtype=float), np.identity(4)
+    try:
+        with mock.patch.object(np.linalg, 'eigh', fake_eigh), mock.patch.object(np.linalg, 'eig', fake_eigh), np.errstate(all='ignore'):
+            ie.LighthouseInitialEstimator._avarage_poses([QStub(q, (0, 0, 0)) for q in rows])
+    except Exception as e:
+        if not rec:
+            return 'err ' + exc_enum(e)
+    if len(rec) != 1 or rec[0].shape != (4, 4):
+        return 'no-eigen-decomposition-of-a-4x4-matrix'
+    return 'ok ' + _ints(rec[0].ravel())
+
+
+def averaging_violations(rng, n_trials):
+    """helper-level check on the REAL _avarage_poses: N estimates of one pose - written with arbitrary quaternion signs,
+    optionally perturbed by <= eps - average to that pose (rotation within 4*eps + 1e-9, translation to the mean)."""
+    import math
+    from scipy.spatial.transform import Rotation
+    np, sm, ie, gs, lt, ippe_cf, bv = _mods()
+    E = ie.LighthouseInitialEstimator
+    bad = []
+    for k in range(n_trials):
+        kind = k % 4
+        if kind == 0:      # level and square: yaw multiple of 90 deg, round pitch (ties between quaternion components)
+            R = Rotation.from_euler('ZY', [math.radians(rng.choice([-90, 90, 180, 0])), math.radians(rng.choice([0, 30, 45, 40]))])
+        elif kind == 1:
+            R = Rotation.from_euler('z', math.radians(rng.choice([-90, 90, 180, 45, -135])))
+        else:
+            R = Rotation.from_rotvec([rng.uniform(-3, 3) for _ in range(3)])
+        q = R.as_quat()
+        t = np.array([rng.uniform(-3, 3) for _ in range(3)])
+        n = rng.choice([1, 2, 2, 3, 4, 4, 5, 6, 8])
+        eps = rng.choice([0.0, 0.0, 1e-12, 1e-6, 1e-3])
+        pattern = rng.choice(['random', 'alternate', 'half', 'same', 'one'])
+        signs = {'random': [rng.choice([-1, 1]) for _ in range(n)], 'alternate': [(-1) ** i for i in range(n)],
+                 'half': [1] * (n // 2) + [-1] * (n - n // 2), 'same': [rng.choice([-1, 1])] * n, 'one': [-1] + [1] * (n - 1)}[pattern]
+        poses, ts = [], []
+        for sgn in signs:
+            dq = (Rotation.from_rotvec([rng.uniform(-eps, eps) for _ in range(3)]) * R).as_quat() if eps else q
+            if np.dot(dq, q) < 0:
+                dq = -dq
+            ti = t + np.array([rng.uniform(-eps, eps) for _ in range(3)])
+            ts.append(ti)
+            poses.append(QStub(sgn * dq, ti))
+        case = {'quat': [float(x) for x in q], 'signs': signs, 'eps': eps, 't': [float(x) for x in t]}
+        try:
+            with np.errstate(all='ignore'):
+                res = E._avarage_poses(poses)
+            dr = float(Rotation.from_matrix(R.as_matrix().T @ res.rot_matrix).magnitude())
+            dt = float(np.linalg.norm(res.translation - np.mean(ts, axis=0)))
+        except Exception as e:
+            bad.append((case, 'raised %s: %s' % (type(e).__name__, str(e)[:120])))
+            continue
+        if not (dr <= 4 * eps + 1e-9 and dt <= 1e-9):
+            bad.append((case, 'rotation off by %.3g rad, translation off the mean by %.3g' % (dr, dt)))
+    # the same through real Pose objects: scipy's as_quat() picks the sign itself (ties for yaw -90)
+    for k in range(n_trials // 2):
+        R = Rotation.from_euler('ZY', [math.radians(-90), math.radians(rng.choice([0, 30, 45, 40, rng.uniform(20, 60)]))])
+        n = rng.choice([2, 4, 2, 4, 6])
+        poses = [lt.Pose((Rotation.from_rotvec([rng.uniform(-1e-15, 1e-15) for _ in range(3)]) * R).as_matrix(), (1.0, 2.0, 3.0)) for _ in range(n)]
+        case = {'pose': 'yaw -90 deg wall station', 'n': n, 'quat_signs': [int(np.sign(p.rot_quat[3])) for p in poses]}
+        try:
+            with np.errstate(all='ignore'):
+                res = E._avarage_poses(poses)
+            dr = float(Rotation.from_matrix(R.as_matrix().T @ res.rot_matrix).magnitude())
+        except Exception as e:
+            bad.append((case, 'raised %s: %s' % (type(e).__name__, str(e)[:120])))
+            continue
+        if not dr <= 1e-9:
+            bad.append((case, 'rotation off by %.3g rad' % dr))
+    return bad
+
+
 def real_ippe(op, v):
     np, sm, ie, gs, lt, ippe_cf, bv = _mods()
     I = ippe_cf.IppeCf
@@ -916,6 +1013,12 @@ def correspond(ctx):
     for k in range(60):
         ids = gen_ids(rng, rng.randint(0, 8))
         add('bsmap', 'bsmap %s' % (','.join(map(str, ids)) or '-'), real_bsmap(ids), {'op': 'bsmap', 'ids': ids}, ('bsmap', tuple(ids)))
+    # ---- quaternion averaging: the matrix the real _avarage_poses hands to the eigen-solver = model gram
+    for k in range(200 if thorough else 60):
+        rows = [[rng.randint(-9, 9) for _ in range(4)] for _ in range(rng.choice([1, 2, 2, 3, 4, 6]))]
+        if k % 3 == 0:
+            rows = [[-x for x in r] if rng.random() < 0.5 else r for r in [rows[0]] * len(rows)]     # one pose, mixed signs
+        add('gram', 'gram ' + ';'.join(','.join(map(str, r)) for r in rows), real_gram(rows), {'op': 'gram', 'rows': rows}, ('gram', str(rows)))
     # ---- IPPE axis permutations
     add('ippe', 'rcf2ippe', real_ippe('rcf2ippe', None), {'op': 'rcf2ippe'}, ('rcf2ippe',))
     for k in range(60):
@@ -1043,6 +1146,72 @@ def gen_room(rng, nbs=None, ncf=None, chain=None):
     return {'bs': {str(b): bss[b] for b in ids}, 'cf': cfs, 'vis': vis, 'chain': chain}
 
 
+def gen_structured_room(rng):
+    """the installations people actually build: a rectangular room, base stations level (no roll) on wall centres / in corners,
+    yaw a multiple of 90 / 45 degrees, pitched down by a round angle, identical heights, symmetric constellations; the first
+    Crazyflie sample exactly level in the origin facing +X (the wizard's start pose), further samples mostly level on a grid
+    with yaw in multiples of 45 degrees; two stations seen everywhere, every other one in exactly 2 or 4 samples (or all
+    stations everywhere).  The +Y wall (yaw -90: quaternion components |w| = |z| with opposite signs) is favoured."""
+    import numpy as np
+    from scipy.spatial.transform import Rotation
+    a = rng.choice([1.5, 2.0, 2.5, 3.0])
+    b = rng.choice([a, a, 2.0, 3.0])
+    same_h = rng.random() < 0.7
+    h0 = rng.choice([2.0, 2.5, 3.0])
+    mounts = [('wall', (a, 0.0), 180.0), ('wall', (-a, 0.0), 0.0), ('wall', (0.0, b), -90.0), ('wall', (0.0, -b), 90.0),
+              ('corner', (a, b), -135.0), ('corner', (-a, b), -45.0), ('corner', (-a, -b), 45.0), ('corner', (a, -b), 135.0)]
+    style = rng.choice(['walls', 'corners', 'opposite', 'mixed', 'mixed'])
+    if style == 'walls':
+        sel = mounts[:4]
+    elif style == 'corners':
+        sel = mounts[4:]
+    elif style == 'opposite':
+        sel = rng.choice([[mounts[0], mounts[1]], [mounts[2], mounts[3]], [mounts[4], mounts[6]], [mounts[2], mounts[3], mounts[0]]])
+    else:
+        sel = rng.sample(mounts, rng.randint(2, 6))
+    sel = list(sel)
+    rng.shuffle(sel)
+    if len(sel) >= 3 and rng.random() < 0.7:
+        # a station square on the +Y wall among the late (2/4-sample) stations
+        side = mounts[2]
+        sel = [m for m in sel if m is not side][:5]
+        sel.insert(rng.randint(2, len(sel)), side)
+    ids = gen_ids(rng, len(sel))
+    bss = {}
+    for bid, (kind, (x, y), yaw) in zip(ids, sel):
+        h = h0 if same_h else rng.choice([2.0, 2.5, 3.0])
+        if kind == 'wall' and rng.random() < 0.5:
+            # slid along the wall, still square to it
+            if abs(yaw) in (0.0, 180.0):
+                y = rng.choice([-0.5, 0.5, 0.25])
+            else:
+                x = rng.choice([-0.5, 0.5, 0.25])
+        pitch = rng.choice([30.0, 45.0, 40.0, 35.0])
+        R = Rotation.from_euler('ZY', [math.radians(yaw), math.radians(pitch)]).as_matrix()
+        bss[bid] = (R.tolist(), [x, y, h])
+    ncf = rng.choice([3, 4, 5, 6, 8, 9, 12])
+    cfs = [(np.identity(3).tolist(), [0.0, 0.0, 0.0])]
+    for i in range(ncf - 1):
+        level = rng.random() < 0.7
+        yaw = math.radians(rng.choice([0, 90, -90, -90, -90, 180, 45, -45, 135, -135])) if level else rng.uniform(-math.pi, math.pi)
+        tilt = (0.0, 0.0) if level else (rng.uniform(-0.1, 0.1), rng.uniform(-0.1, 0.1))
+        R = Rotation.from_euler('zyx', [yaw, tilt[0], tilt[1]]).as_matrix()
+        p = [rng.choice([-1.0, -0.5, -0.25, 0.0, 0.25, 0.5, 1.0]), rng.choice([-1.0, -0.5, -0.25, 0.0, 0.25, 0.5, 1.0]), rng.choice([0.0, 0.0, 0.25, 0.5, 1.0])]
+        cfs.append((R.tolist(), p))
+    # visibility: the first two stations are seen in every sample; every further station in exactly 2 or 4 samples
+    # (never the first), so each pair (known station, that station) shares an even number of samples
+    vis = [list(ids[:2]) for _ in range(ncf)]
+    mode = rng.choice(['all', 'even', 'even'])
+    if mode == 'all' or ncf < 3:
+        vis = [list(ids) for _ in range(ncf)]
+    else:
+        for bid in ids[2:]:
+            k = 2 if ncf < 5 or rng.random() < 0.5 else 4
+            for i in rng.sample(range(1, ncf), k):
+                vis[i].append(bid)
+    return {'bs': {str(bid): bss[bid] for bid in ids}, 'cf': cfs, 'vis': vis, 'chain': 'structured-' + style}
+
+
 def synth_angles(np, lt, bv, cf, bs):
     """error-free sweep angles of the 4 deck sensors (same construction as the repo's test fixture)"""
     cfp, bsp = lt.Pose(np.array(cf[0]), np.array(cf[1])), lt.Pose(np.array(bs[0]), np.array(bs[1]))
@@ -1086,10 +1255,22 @@ def rel_pose(np, ref, p):
     return (Rr.T @ np.array(p[0])), (Rr.T @ (np.array(p[1]) - tr))
 
 
-def run_pipeline(rng, room):
+def run_pipeline(rng, room, true_votes=False):
     """match -> estimate -> solve on the real code.  Returns a dict: outcome in {'ok','lh_exception','exception'}, worst
-    pose errors against ground truth expressed in the frame of the first sample, and diagnostics."""
+    pose errors against ground truth expressed in the frame of the first sample, and diagnostics.
+    true_votes=True (diagnosis only): _find_solutions is replaced by an oracle returning the TRUE relative position of every
+    base-station pair, everything else is the real code."""
     np, sm, ie, gs, lt, ippe_cf, bv = _mods()
+    Est = ie.LighthouseInitialEstimator
+    if true_votes:
+        ids = sorted(int(b) for b in room['bs'])
+        truth = {ie.BsPairIds(a, b): rel_pose(np, room['bs'][str(a)], room['bs'][str(b)])[1] for a in ids for b in ids if a < b}
+
+        class OracleVotes(ie.LighthouseInitialEstimator):
+            @classmethod
+            def _find_solutions(cls, matched_samples, sensor_positions):
+                return dict(truth)
+        Est = OracleVotes
     meas = room_measurements(rng, room)
     res = {'n_bs': len(room['bs']), 'n_cf': len(room['cf']), 'chain': room['chain']}
     sensors = lt.LhDeck4SensorPositions.positions
@@ -1097,7 +1278,7 @@ def run_pipeline(rng, room):
         with contextlib.redirect_stdout(io.StringIO()), np.errstate(all='ignore'):
             matched = sm.LighthouseSampleMatcher.match(meas, min_nr_of_bs_in_match=2)
             res['n_matched'] = len(matched)
-            guess, cleaned = ie.LighthouseInitialEstimator.estimate(matched, sensors)
+            guess, cleaned = Est.estimate(matched, sensors)
             res['n_cleaned'] = len(cleaned)
             sol = gs.LighthouseGeometrySolver.solve(guess, cleaned, sensors)
     except lt.LhException as e:
@@ -1173,25 +1354,167 @@ def mirror_vote_diagnosis(room):
     return {}
 
 
-def classify_pipeline(room, r):
-    """-> None if the pipeline result satisfies the property on this (linked) room, else (key, what, extra)"""
+def _matched_of_room(room):
+    np, sm, ie, gs, lt, ippe_cf, bv = _mods()
+    return [lt.LhCfPoseSample(timestamp=float(i), angles_calibrated={b: synth_angles(np, lt, bv, room['cf'][i], room['bs'][str(b)])
+                                                                     for b in sorted(room['vis'][i])}) for i in range(len(room['cf']))]
+
+
+def spec_votes(matched):
+    """independent re-implementation of the DOCUMENTED voting algorithm of _find_solutions (all four mirror combinations per
+    sample and pair; buckets around the first sample's four positions, accept radius 0.8 m, first bucket wins; most populated
+    bucket, first on ties; mean) on top of the real IppeCf.solve.  Used only to pin down the identity of finding D92."""
+    np, sm, ie, gs, lt, ippe_cf, bv = _mods()
+    sensors = lt.LhDeck4SensorPositions.positions
+    perms = {}
+    for sample in matched:
+        sols = {}
+        for b, ang in sample.angles_calibrated.items():
+            est = ippe_cf.IppeCf.solve(sensors, ang.projection_pair_list())
+            sols[b] = [(np.array(e.R).T, np.array(e.R).T @ -np.array(e.t).reshape(3)) for e in est]
+        ids = sorted(sols)
+        for i, a in enumerate(ids):
+            for b in ids[i + 1:]:
+                perms.setdefault((a, b), []).append([Ra.T @ (tb - ta) for Ra, ta in sols[a] for Rb, tb in sols[b]])
+    votes = {}
+    for pair, lists in perms.items():
+        refs, buckets = lists[0], [[], [], [], []]
+        for l in lists:
+            for pos in l:
+                for i, ref in enumerate(refs):
+                    if np.linalg.norm(pos - ref) < 0.8:
+                        buckets[i].append(pos)
+                        break
+        best = max(range(4), key=lambda i: (len(buckets[i]), -i))
+        votes[pair] = np.mean(buckets[best], axis=0) if buckets[best] else np.full(3, np.nan)
+    return votes
+
+
+def votes_are_the_documented_ones(room):
+    """True iff the REAL _find_solutions returns, for this room, exactly the votes of the documented algorithm (spec_votes)"""
+    np, sm, ie, gs, lt, ippe_cf, bv = _mods()
+    matched = _matched_of_room(room)
+    with np.errstate(all='ignore'):
+        real = ie.LighthouseInitialEstimator._find_solutions(matched, lt.LhDeck4SensorPositions.positions)
+        spec = spec_votes(matched)
+    if {tuple(k) for k in real} != set(spec):
+        return False
+    return all(np.allclose(np.ravel(real[k]), spec[tuple(k)], rtol=0, atol=1e-9, equal_nan=True) for k in real)
+
+
+def ippe_nan_samples(room):
+    """D93 diagnosis: the (sample, base station) pairs for which the REAL IppeCf.solve returns a non-finite pose although
+    the angles are error free (then _choose_solutions sees distance nan and the whole sample is dropped as an 'outlier')"""
+    np, sm, ie, gs, lt, ippe_cf, bv = _mods()
+    sensors = lt.LhDeck4SensorPositions.positions
+    bad = []
+    with np.errstate(all='ignore'):
+        for i, cf in enumerate(room['cf']):
+            for b in room['vis'][i]:
+                est = ippe_cf.IppeCf.solve(sensors, synth_angles(np, lt, bv, cf, room['bs'][str(b)]).projection_pair_list())
+                if not all(np.all(np.isfinite(e.R)) and np.all(np.isfinite(e.t)) for e in est):
+                    bad.append((i, int(b)))
+    return bad
+
+
+def _deck_axis_perpendicular(room, i, b):
+    """the documented D93 configuration: the deck's x or y axis is perpendicular (to 1e-9) to the line of sight from station b"""
+    import numpy as np
+    R, t = np.array(room['cf'][i][0]), np.array(room['cf'][i][1])
+    los = np.array(room['bs'][str(b)][1]) - t
+    los = los / np.linalg.norm(los)
+    return min(abs(float(R[:, 0] @ los)), abs(float(R[:, 1] @ los))) < 1e-9
+
+
+def _within(r):
+    return r['outcome'] == 'ok' and not r.get('shape_mismatch') and r['err_pos'] <= TOL_POS and r['err_rot'] <= TOL_ROT
+
+
+def rejection_outcome(room, kind):
+    """feed the real estimator a recording that must be rejected, built from the room's own ids and sample indexes:
+    'no-reference': every sample holds ONE station (seen from a different Crazyflie pose than in the room);
+    'unlinked': two islands of stations never seen together.  -> 'LhException: <message>' or what happened instead"""
+    np, sm, ie, gs, lt, ippe_cf, bv = _mods()
+    n = len(room['cf'])
+    ids = sorted(int(b) for b in room['bs'])
+    samples = []
+    for i in range(n):
+        cf = room['cf'][(i + 1) % n]
+        if kind == 'no-reference':
+            vis = [sorted(room['vis'][i])[0]]
+        else:
+            vis = ids[:2] if i % 2 == 0 else ids[2:4]
+        samples.append(lt.LhCfPoseSample(timestamp=float(i), angles_calibrated={b: synth_angles(np, lt, bv, cf, room['bs'][str(b)]) for b in vis}))
+    try:
+        with contextlib.redirect_stdout(io.StringIO()), np.errstate(all='ignore'):
+            ie.LighthouseInitialEstimator.estimate(samples, lt.LhDeck4SensorPositions.positions)
+    except lt.LhException as e:
+        return 'LhException: ' + str(e)
+    except Exception as e:
+        return 'raised %s' % type(e).__name__
+    return 'accepted'
+
+
+def classify_pipeline(room, r, depth=0):
+    """-> None if the pipeline result satisfies the property on this (linked) room, else (key, what, extra).
+    Attribution to the known findings is CAUSAL and strict:
+      D93 only if IPPE returns non-finite poses for some samples AND the room without those samples is handled correctly;
+      D92 only if the real _find_solutions returns exactly the votes of the documented voting algorithm (independent twin
+      spec_votes) AND the very same room is handled correctly once those votes are replaced by the true pair positions.
+    Every other miss is an unlisted violation."""
+    import random
     if r['outcome'] == 'exception':
         if r.get('exc') == 'ValueError' and 'complex' in r.get('message', '') and '_avarage_poses' not in r.get('where', []) \
                 and any('from_quat' in w for w in r.get('where', [])):
             return ('D91-eig-complex', 'estimate() crashes: _avarage_poses takes np.linalg.eig of the symmetric Q.T@Q, gets complex '
                     'eigenvectors for (near-)identical quaternions and Pose.from_quat rejects them', {})
-        return ('pipeline-exception', 'pipeline raised %s on a linked error-free room' % r.get('exc'), {})
-    if r['outcome'] == 'lh_exception':
-        return ('linked-room-rejected', 'a linked room was rejected: %s' % r.get('message'), {})
-    if r.get('shape_mismatch'):
-        return ('pipeline-shape', 'solution does not contain exactly the room\'s base stations / CF poses', {})
-    if r['err_pos'] > TOL_POS or r['err_rot'] > TOL_ROT:
-        diag = mirror_vote_diagnosis(room)
-        if diag:
-            return ('D92-mirror-vote', 'poses off by more than 1 mm / 1 mrad: the per-pair position vote of _find_solutions is polluted by '
-                    'double-mirror IPPE solutions that fall inside the 0.8 m accept radius, _choose_solutions then picks mirror poses', diag)
-        return ('pipeline-tolerance', 'poses off by more than 1 mm / 1 mrad on an error-free linked room', {})
-    return None
+    if _within(r):
+        return None
+    if r['outcome'] == 'exception':
+        generic = ('pipeline-exception', 'pipeline raised %s on a linked error-free room' % r.get('exc'), {})
+    elif r['outcome'] == 'lh_exception':
+        generic = ('linked-room-rejected', 'a linked room was rejected: %s' % r.get('message'), {})
+    elif r.get('shape_mismatch'):
+        generic = ('pipeline-shape', 'solution does not contain exactly the room\'s base stations / CF poses', {})
+    else:
+        generic = ('pipeline-tolerance', 'poses off by more than 1 mm / 1 mrad on an error-free linked room', {})
+    try:
+        nan = ippe_nan_samples(room) if depth == 0 else []
+    except Exception:
+        nan = []
+    if nan and not all(_deck_axis_perpendicular(room, i, b) for i, b in nan):
+        nan = []        # NaN poses in a configuration that is not the documented D93 one: not that finding
+    if nan:
+        drop = {i for i, _ in nan}
+        keep = [i for i in range(len(room['cf'])) if i not in drop]
+        reduced = {'bs': room['bs'], 'cf': [room['cf'][i] for i in keep], 'vis': [room['vis'][i] for i in keep], 'chain': room['chain']}
+        what = ('IppeCf.solve returns NaN poses for error-free angles when a deck axis is exactly perpendicular to the line of sight '
+                '(_ippe.IPPE_dec takes sqrt of a round-off negative 1-|column|^2); the sample is then silently dropped as an outlier, '
+                'so its CF pose (and, for the first sample, the reference frame) is lost')
+        seen = {b for v in reduced['vis'] for b in v}
+        if not keep or seen != {int(b) for b in room['bs']} or len(components([list(v) for v in reduced['vis']])) != 1:
+            return ('D93-ippe-nan', what, {'nan_samples': nan, 'note': 'without the dropped samples the system is no longer complete/linked'})
+        r2 = run_pipeline(random.Random(1), reduced)
+        v2 = classify_pipeline(reduced, r2, depth + 1)
+        if v2 is None:
+            return ('D93-ippe-nan', what, {'nan_samples': nan})
+        return v2
+    if r['outcome'] in ('ok', 'lh_exception'):
+        try:
+            documented = votes_are_the_documented_ones(room)
+        except Exception:
+            documented = False
+        r3 = run_pipeline(random.Random(1), room, true_votes=True) if documented else None
+        if r3 is not None and _within(r3):
+            try:
+                diag = mirror_vote_diagnosis(room)
+            except Exception:
+                diag = {}
+            return ('D92-mirror-vote', 'poses off by more than 1 mm / 1 mrad (or samples dropped): the per-pair position vote of _find_solutions is '
+                    'polluted by mirror IPPE solutions inside the 0.8 m accept radius, _choose_solutions then picks mirror poses / rejects samples; '
+                    'the votes are those of the documented algorithm, and with the true pair positions in their place the same room is solved correctly',
+                    dict(diag, solved_with_true_votes=True))
+    return generic
 
 
 def _report(ctx, room, r, verdict, src):
@@ -1276,10 +1599,19 @@ def search(ctx):
         ctx.count('search:sparsity')
         if bad:
             ctx.witness('sparsity-missing-mark', 'a residual row depends on a parameter that jac_sparsity does not mark', {'room': room}, entries=bad[:10])
-    # (4) VALIDATION (testing, not proof): end-to-end pipeline against ground truth on generated rooms
-    n_rooms = 400 if thorough else 30
+    # (3b) helper level: the averaging step on the real code is invariant to the sign each quaternion is written with
+    try:
+        badavg = averaging_violations(rng, 400 if thorough else 120)
+    except Exception as e:
+        badavg = [({'harness': 'averaging_violations'}, 'raised %s: %s' % (type(e).__name__, str(e)[:200]))]
+    ctx.count('search:averaging', 400 if thorough else 120)
+    for case, what in badavg[:5]:
+        ctx.witness('averaging-sign', '_avarage_poses does not return the common pose of N estimates written with mixed quaternion signs: ' + what, case)
+    # (4) VALIDATION (testing, not proof): end-to-end pipeline against ground truth on generated rooms: random rooms and
+    # STRUCTURED rooms (axis aligned, square, symmetric installations, Crazyflie level in the origin)
+    n_rooms = 600 if thorough else 50
     for k in range(n_rooms):
-        room = gen_room(rng)
+        room = gen_structured_room(rng) if k % 5 < 3 else gen_room(rng)
         r = run_pipeline(rng, room)
         v = classify_pipeline(room, r)
         ctx.count('search:e2e:' + (v[0] if v else 'within-tolerance'))
@@ -1297,6 +1629,26 @@ def search(ctx):
             _report(ctx, room, r, v, 'generated unlinked room #%d' % k)
         elif r['outcome'] != 'lh_exception' or 'link' not in r.get('message', ''):
             ctx.witness('unlinked-accepted', 'unlinked room was not rejected with LhException', {'room': room}, got=str(r)[:300])
+    # (6) order of operations: a recording that is (rightly) rejected must leave no trace - the same good room is solved
+    #     before and after a rejected recording that uses the same base-station ids and sample indexes
+    for k in range(40 if thorough else 8):
+        room = gen_structured_room(rng) if k % 2 else gen_room(rng, ncf=rng.randint(3, 12))
+        if not _within(run_pipeline(random.Random(k), room)):
+            continue                                           # misses of the room itself are reported by (4)
+        kind = 'no-reference' if k % 4 < 3 or len(room['bs']) < 4 else 'unlinked'
+        try:
+            rejected = rejection_outcome(room, kind)
+        except Exception as e:
+            rejected = 'harness: %s' % type(e).__name__
+        ctx.count('search:sequence:%s:%s' % (kind, rejected))
+        if not rejected.startswith('LhException'):
+            ctx.witness('unlinked-accepted', 'a recording without any linked pair of base stations was not rejected with LhException', {'room': room, 'kind': kind}, got=rejected)
+            continue
+        r = run_pipeline(random.Random(k), room)
+        if not _within(r):
+            slim = {kk: (round(v, 9) if isinstance(v, float) else v) for kk, v in r.items()}
+            ctx.witness('stale-state-after-rejection', 'a room that is solved correctly on its own is answered wrongly after a rejected recording '
+                        '(%s) with the same base-station ids was processed in the same process' % kind, {'room': room, 'rejected_first': kind}, result=slim)
     ctx.note('search(): end-to-end pipeline runs are TESTING/validation of the numerics outside the Lean model, not proof')
 
 
